@@ -1970,7 +1970,8 @@ fn chain_families(r: &mut Rng, n_random: usize) -> Vec<ChainFamily> {
         ("def", avd(300.0, 200.0)),
         ("def-max", Size { width: AvailableSpace::Definite(120.0), height: AvailableSpace::MaxContent }),
     ];
-    let ctxs = [("fixed", Ctx::Fixed(40.0, 10.0)), ("wrap", Ctx::Wrap(160.0, 10.0))];
+    // "zero": a leaf that measures 0 x 0 — every box above it in an auto-sized chain is 0 x 0 too (seeded C16-5 skipped the cache store for exactly those)
+    let ctxs = [("fixed", Ctx::Fixed(40.0, 10.0)), ("wrap", Ctx::Wrap(160.0, 10.0)), ("zero", Ctx::Fixed(0.0, 0.0))];
     for (kn, levels) in &kinds {
         for (sn, sz) in &sizings {
             for (an, a) in &avails {
